@@ -15,6 +15,18 @@ fully resolved on every platform: each answer is compared with the model's resol
 description, with the layering oracle computed from the ORIGINAL document, and with a fresh object that was
 never asked anything else; the description must not change.
 
+(i) Flattened views: the runtime does not execute the package description but FlowIRConcrete.instance(platform)
+of it (FlowIRExperimentConfiguration(primitive=False) -> replicate() -> instance(); flowir_instance.yaml).  Every
+case of (a)-(e) and every sequence is therefore ALSO resolved through FlowIRConcrete(instance(P)),
+FlowIRConcrete(replicate(P)) and FlowIRExperimentConfiguration(primitive=False).configurationForNode: the same
+layering / substitution / type oracles are evaluated on those answers (slugs end in -in-flattened-view), the
+document instance() returns is compared with the model's Tree.flatten, and the answers with the model's resolution
+of the ORIGINAL description (theorems flatten_preserves_layering / flatten_preserves_resolution).
+(j) Primitive look-ups inside sequences: some components of a sequence are NOT replicated but mention
+%(replica)s (in the arguments, in a typed option, in a variable): their primitive resolution (tolerated) and their
+strict one (an error) differ; validate() (which resolves every component in primitive mode) is one of the read-only
+operations and primitive queries are placed before strict ones: the strict answer must stay the error.
+
 Oracles (model independent): `spec_*` below restate the property on the implementation's answer:
   * the value of an option/variable = the one of the highest-priority layer that defines it
     (None does not count for options), layers of other platforms are never visible;
@@ -90,7 +102,10 @@ def err_kind(exc):
 
 def desc_of(concrete):
     """the part of the description the resolver reads, as the model's Desc JSON"""
-    raw = concrete.raw()
+    return desc_of_raw(concrete.raw(), concrete.platforms)
+
+
+def desc_of_raw(raw, platforms):
     bp = {}
     for P, b in (raw.get("blueprint") or {}).items():
         b = b or {}
@@ -104,7 +119,7 @@ def desc_of(concrete):
         vs[P] = {"global": to_json(b.get("global") or {}),
                  "stages": {str(i): to_json(v or {}) for i, v in (b.get("stages") or {}).items()}}
     comps = [{"stage": c["stage"], "name": c["name"], "body": to_json(c)} for c in raw["components"]]
-    return {"platforms": list(concrete.platforms), "blueprint": bp, "variables": vs, "components": comps}
+    return {"platforms": list(platforms), "blueprint": bp, "variables": vs, "components": comps}
 
 
 # ----------------------------------------------------------------------------------------
@@ -175,7 +190,8 @@ def user_json(user):
 # ----------------------------------------------------------------------------------------
 
 READ_KINDS = ["instance", "instance", "instance", "replicate", "raw", "get_component", "get_components", "blueprint",
-              "blueprint", "variables", "component_variables", "variable_references", "copy", "identifiers"]
+              "blueprint", "variables", "component_variables", "variable_references", "copy", "identifiers",
+              "validate", "validate"]
 
 
 def scramble(tree):
@@ -270,6 +286,9 @@ def apply_read(conc, op):
         elif what == "identifiers":
             conc.get_component_identifiers(recompute=True)
             res = None
+        elif what == "validate":
+            # resolves every component in PRIMITIVE mode (every configuration load ends with it); returns errors
+            res = conc.validate()
         else:
             raise ValueError(what)
         scramble(res)
@@ -313,6 +332,84 @@ def first_difference(a, b, path=()):
                 return d
         return None
     return None if a == b else {"route": list(path), "before": a, "after": b}
+
+
+# ----------------------------------------------------------------------------------------
+# flattened views: what the runtime executes
+# ----------------------------------------------------------------------------------------
+
+VIEWS = ("instance", "replicate", "conf")
+
+
+def open_view(conc, platform, view):
+    """a FLATTENED form of the description held by `conc` for `platform` (read-only for `conc`):
+    instance  - FlowIRConcrete(conc.instance(platform, ignore_errors=True, fill_in_all=False), platform)
+    replicate - FlowIRConcrete(conc.replicate(platform, ignore_errors=True), platform): what
+                FlowIRExperimentConfiguration.replicate() installs as its `_concrete`
+    conf      - FlowIRExperimentConfiguration(primitive=False, concrete=copy of conc): the object the runtime asks
+                (flattens, replicates, validates - every load ends with validate())
+    returns (resolve(cid) -> answer of the observed strict call, the flattened FlowIRConcrete)"""
+    F = _F()
+    if view == "instance":
+        flat = conc.instance(platform=platform, ignore_errors=True, fill_in_all=False)
+        fc = F.FlowIRConcrete(flat, platform, {})
+        fc.flattened_document = norm_desc_json(desc_of_raw(flat, flat["platforms"]))     # what instance() returned
+    elif view == "replicate":
+        fc = F.FlowIRConcrete(conc.replicate(platform=platform, ignore_errors=True), platform, {})
+    elif view == "conf":
+        import experiment.model.conf as C
+        conf = C.FlowIRExperimentConfiguration(None, platform, [], {}, False, False, False,
+                                               concrete=F.FlowIRConcrete(conc.raw(), platform, {}),
+                                               updateInstanceFiles=False, validate=False)
+
+        def ask(cid):
+            try:
+                return {"ok": to_json(conf.configurationForNode("stage%d.%s" % (cid[0], cid[1]), raw=False))}
+            except BaseException as exc:
+                if isinstance(exc, (KeyboardInterrupt, SystemExit)):
+                    raise
+                return err_kind(exc)
+        return ask, conf.get_flowir_concrete(return_copy=False)
+    else:
+        raise ValueError(view)
+    return (lambda cid: impl_resolve(fc, cid, None, False)), fc
+
+
+def try_view(conc, platform, view):
+    """(resolver, flattened concrete, None) or (None, None, error) when the flattened form cannot be built
+    (e.g. the description holds a cyclic definition: instance() raises)"""
+    try:
+        ask, fc = open_view(conc, platform, view)
+        return ask, fc, None
+    except BaseException as exc:
+        if isinstance(exc, (KeyboardInterrupt, SystemExit)):
+            raise
+        return None, None, err_kind(exc)
+
+
+def without_override(ans):
+    """the answer of a resolution without (i) the raw `override` blocks (a flattened description keeps only the
+    block of the selected platform) and (ii) the derived flag workflowAttributes.isRepeat, which
+    FlowIRConcrete.__init__ recomputes from repeatInterval AFTER the flattening converted its type (the text "0"
+    counts as a repeat interval before the conversion and not after it)"""
+    if isinstance(ans, dict) and isinstance(ans.get("ok"), dict):
+        out = {k: v for k, v in ans["ok"].items() if k != "override"}
+        if isinstance(out.get("workflowAttributes"), dict):
+            out["workflowAttributes"] = {k: v for k, v in out["workflowAttributes"].items() if k != "isRepeat"}
+        return {"ok": out}
+    return ans
+
+
+def norm_desc_json(d):
+    """the model's Desc JSON in the normal form of desc_norm"""
+    return {"platforms": sorted(d["platforms"]), "blueprint": prune_empty(d["blueprint"]),
+            "variables": prune_empty(d["variables"]),
+            "components": sorted(d["components"], key=lambda c: (c["stage"], c["name"]))}
+
+
+FLATTEN_REL = "FlowIRConcrete.instance(P, ignore_errors=True) == Tree.flatten"
+VIEW_REL = ("resolution through the flattened description == Tree.resolve of the ORIGINAL description "
+            "(flatten_preserves_resolution)")
 
 
 # ----------------------------------------------------------------------------------------
@@ -599,6 +696,24 @@ def gen_typed(rng, table, exhaustive_index=None):
             "chosen": chosen}
 
 
+def gen_shadowed(rng):
+    """a variable of an OUTER scope (global, or stage) refers to a name that an inner scope of the component
+    re-defines: layering first and substituting afterwards (the property) gives the inner value; instance()
+    interpolates the outer scopes on their own (Witness/C04.lean, flattened_binds_early)"""
+    doc = base_doc()
+    stage = rng.choice([0, 1])
+    platform = rng.choice(["default", "p"])
+    outer = rng.choice(["DG", "DS"] + (["PG"] if platform == "p" else []))
+    inner = rng.choice((["C"] + (["O"] if platform == "p" else [])) +
+                       ([] if outer == "DS" else ["DS"] + (["PS"] if platform == "p" else [])))
+    variable_target(doc, None, "DG", stage, stage)["v"] = "outerV"
+    variable_target(doc, None, outer, stage, stage)["g"] = "%(v)s-g"
+    variable_target(doc, None, inner, stage, stage)["v"] = "innerV"
+    doc["components"][stage]["command"]["arguments"] = "%(g)s"
+    return {"kind": "shadowed", "doc": doc, "user": None, "platform": platform, "stage": stage, "prim": False,
+            "outer": outer, "inner": inner}
+
+
 def gen_structural(rng):
     """malformed / structural stream: dictionaries against scalars, falsy values at inner nodes, unknown platform"""
     doc = base_doc()
@@ -680,7 +795,7 @@ def spec_substitute(s, variables, depth=0):
     return "".join(out)
 
 
-def oracle_common(ctx, case, out, variables_expected_defined=None):
+def oracle_common(ctx, case, out, variables_expected_defined=None, sfx="", view=None):
     """clauses that must hold for every successful resolution"""
     if "ok" not in out:
         return
@@ -690,18 +805,18 @@ def oracle_common(ctx, case, out, variables_expected_defined=None):
         for m in VARPAT.finditer(s):
             name = m.group()[2:-2]
             if name in defined:
-                ctx.fail("defined-variable-left-in-place", case, {"string": s, "name": name})
+                ctx.fail("defined-variable-left-in-place" + sfx, case, {"string": s, "name": name, "view": view})
             elif not (case.get("prim") and name == "replica") and "." not in name:
-                ctx.fail("undefined-variable-left-in-place", case, {"string": s, "name": name})
+                ctx.fail("undefined-variable-left-in-place" + sfx, case, {"string": s, "name": name, "view": view})
 
 
-def check_typed_tree(ctx, case, tree, table, prefix=()):
+def check_typed_tree(ctx, case, tree, table, prefix=(), sfx="", view=None):
     for k, ty in table.items():
         if not isinstance(tree, dict) or k not in tree:
             continue
         v = tree[k]
         if isinstance(ty, dict):
-            check_typed_tree(ctx, case, v, ty, prefix + (k,))
+            check_typed_tree(ctx, case, v, ty, prefix + (k,), sfx, view)
             continue
         if v is None or isinstance(v, list):
             continue
@@ -715,7 +830,107 @@ def check_typed_tree(ctx, case, tree, table, prefix=()):
         if isinstance(v, dict) and want is not dict:
             ok = len(v) == 0 and False
         if not ok:
-            ctx.fail("typed-option-has-wrong-type", case, {"route": list(prefix + (k,)), "declared": ty, "value": v})
+            ctx.fail("typed-option-has-wrong-type" + sfx, case,
+                     {"route": list(prefix + (k,)), "declared": ty, "value": v, "view": view})
+
+
+
+def judge_answer(ctx, case, out, table, mout=None, view=None):
+    """the model-independent oracles on ONE answer of get_component_configuration for the case.  view=None:
+    the answer of the un-flattened FlowIRConcrete to the query the case describes (flags / prim);
+    view="instance"|"replicate"|"conf": the answer of the observed, strict call on a FLATTENED form of the same
+    description (what the runtime executes) - the same layering / substitution / type clauses must hold there"""
+    kind = case["kind"]
+    flags = case.get("flags") if view is None else None
+    prim = bool(case.get("prim")) if view is None else False
+    sfx = "" if view is None else "-in-flattened-view"
+
+    def fail(slug, detail):
+        if view is not None:
+            detail = {"view": view, "answer_or_detail": detail}
+        ctx.fail(slug + sfx, case, detail)
+
+    if flags is None or not flags["raw"]:
+        oracle_common(ctx, dict(case, prim=prim), out, sfx=sfx, view=view)
+    if "ok" in out and (flags is None or not (flags["raw"] or flags["prim"])):
+        check_typed_tree(ctx, case, out["ok"], table, sfx=sfx, view=view)
+    if kind == "option-mask":
+        # the layering order holds for every variant of the query (raw / without the default scopes /
+        # primitive / without the built-in defaults): the values are already of the declared type
+        exp = case["expect"]
+        if "ok" not in out:
+            fail("resolution-of-well-formed-layers-fails", out)
+        else:
+            got = get_route(out["ok"], exp["route"])
+            if exp["expected"][0] == "value":
+                if got != ("value", to_json(exp["expected"][1])):
+                    fail("option-not-from-highest-priority-layer", {"expected": exp["expected"][1], "got": got})
+            else:
+                dflt = get_route(to_json(_F().FlowIR.default_component_structure()), exp["route"])
+                if flags is not None and not flags["inject"]:
+                    dflt = ("absent",)
+                nulls_visible = any(visible(t, case["platform"]) for t in case["nulls"] if t in case["mask"])
+                if dflt[0] == "value":
+                    # typed defaults are converted (20 -> 20.0): compare only untouched kinds
+                    if got[0] != "value":
+                        fail("default-lost", {"got": got})
+                elif got[0] == "value" and not (got[1] is None and nulls_visible):
+                    fail("option-appears-from-invisible-layer", {"got": got})
+    elif flags is not None:
+        pass    # the remaining kind-specific expectations are stated for the observed call only
+    elif kind == "variable-mask":
+        exp = case["expect"]["expected"]
+        if exp[0] == "undefined":
+            if out.get("error") != "unknown-variable":
+                fail("undefined-variable-not-reported", out)
+        elif "ok" not in out:
+            fail("resolution-of-well-formed-layers-fails", out)
+        else:
+            v = exp[1]
+            if out["ok"]["variables"].get("v") != v:
+                fail("variable-not-from-highest-priority-layer",
+                     {"expected": v, "got": out["ok"]["variables"].get("v")})
+            want = "<%s>" % (v if isinstance(v, str) else repr(v))
+            if out["ok"]["command"]["arguments"] != want:
+                fail("substituted-value-not-from-highest-priority-layer",
+                     {"expected": want, "got": out["ok"]["command"]["arguments"]})
+    elif kind == "chain":
+        fault = case["fault"]
+        if fault == "replica-prim" and not prim:
+            fault = "replica"           # the strict call on a view: `replica` is as undefined as any other name
+        if fault in ("undefined", "foreign-only", "replica"):
+            if out.get("error") != "unknown-variable":
+                fail("undefined-variable-not-reported", out)
+        elif fault in ("none", "replica-prim"):
+            if "ok" not in out:
+                fail("acyclic-chain-does-not-resolve", out)
+            else:
+                # independent expectation: layer the *unresolved* variables of the document, substitute
+                exp = expected_chain_string(case)
+                got = locate_top(out["ok"], case["where"])
+                if exp is not None and got != exp:
+                    fail("substitution-result-differs-from-specification", {"expected": exp, "got": got})
+        elif fault in ("cycle", "self"):
+            ctx.tag("cyclic-definition->" + out.get("error", "ok"))
+            if "ok" in out:
+                fail("cyclic-definition-resolves", out)
+        elif fault in ("incomplete", "invalid"):
+            if "ok" in out:
+                fail("malformed-reference-accepted", out)
+    elif kind == "shadowed":
+        got = out["ok"]["command"]["arguments"] if "ok" in out else out
+        if got == "innerV-g":
+            pass                        # layered, then substituted
+        elif view is not None and got == "outerV-g":
+            # the known early binding of the fold: a finding of its own, reported once it is registered
+            ctx.tag("finding:flattening-binds-shadowed-reference-early")
+            if early_binding_registered():
+                ctx.fail("flattening-binds-shadowed-reference-early", case, {"view": view, "got": got})
+        else:
+            fail("substitution-result-differs-from-specification", {"expected": "innerV-g", "got": got})
+    elif kind == "structural" and case["what"] == "foreign-override-ref" and view is None:
+        if "ok" not in out:
+            fail("override-of-another-platform-breaks-resolution", out)
 
 
 # ----------------------------------------------------------------------------------------
@@ -723,35 +938,48 @@ def check_typed_tree(ctx, case, tree, table, prefix=()):
 # ----------------------------------------------------------------------------------------
 
 def run_cases(ctx, cases, tmpdir, table):
-    """cases: list of dicts with doc,user,platform,stage,(name),prim + kind specific fields"""
+    """cases: list of dicts with doc,user,platform,stage,(name),prim + kind specific fields; a case without
+    `flags` is also asked through the flattened views listed in case["views"] (default: instance)"""
+    plans = []      # per case: None | dict(out=, views=[(view, answer, flat, err)], req indices)
     reqs = []
-    impl = []
     for case in cases:
         doc, user = case["doc"], case["user"]
         comp = (case["stage"], case.get("name", "c%d" % case["stage"]))
         try:
             conc, desc, nstages = build(doc, user, tmpdir)
         except Exception as exc:  # the package does not even load: not a case of this property
-            impl.append(None)
-            reqs.append(None)
+            plans.append(None)
             ctx.tag("build-failed:" + type(exc).__name__)
             continue
         out = impl_resolve(conc, comp, case["platform"], case.get("prim", False), case.get("flags"))
-        impl.append(out)
+        plan = {"out": out, "views": [], "main": len(reqs), "strict": None, "flatten": None}
         req = {"op": "resolve", "desc": desc, "user": user_json(user), "nstages": nstages,
                "platform": case["platform"], "stage": comp[0], "name": comp[1],
                "prim": bool(case.get("prim", False)), "fuel": FUEL}
         if case.get("flags") is not None:
             req["flags"] = case["flags"]
         reqs.append(req)
-    live = [r for r in reqs if r is not None]
-    mouts = ctx.model(live) if live else []
-    mi = 0
-    for case, req, out in zip(cases, reqs, impl):
-        if req is None:
+        if case.get("flags") is None:
+            for view in case.get("views") or ["instance"]:
+                ask, fc, err = try_view(conc, case["platform"], view)
+                if ask is None:
+                    plan["views"].append((view, None, None, err))
+                else:
+                    plan["views"].append((view, ask(comp), getattr(fc, "flattened_document", None), None))
+            if case.get("prim"):
+                plan["strict"] = len(reqs)
+                reqs.append(dict(req, prim=False))
+            if any(v[0] == "instance" for v in plan["views"]):
+                plan["flatten"] = len(reqs)
+                reqs.append({"op": "flatten", "desc": desc, "user": user_json(user), "nstages": nstages,
+                             "platform": case["platform"], "prim": False, "inject": True, "fuel": FUEL})
+        plans.append(plan)
+    mouts = ctx.model(reqs) if reqs else []
+    for case, plan in zip(cases, plans):
+        if plan is None:
             continue
-        mout = mouts[mi] if mouts is not None else None
-        mi += 1
+        out = plan["out"]
+        mout = mouts[plan["main"]] if mouts is not None else None
         slim = {k: v for k, v in case.items()}
         kind = case["kind"]
         flags = case.get("flags")
@@ -767,93 +995,61 @@ def run_cases(ctx, cases, tmpdir, table):
             tags.append("fault:" + case["fault"])
         elif kind == "structural":
             tags.append("structural:" + case["what"])
+        for view, ans, _, err in plan["views"]:
+            tags.append("view:%s:%s" % (view, "unavailable:" + err["error"] if ans is None else
+                                        "ok" if "ok" in ans else ans["error"]))
         ctx.case(slim, nontrivial=nontrivial, tags=tags)
         # ---- oracles --------------------------------------------------------------------
-        if flags is None or not flags["raw"]:
-            oracle_common(ctx, slim, out)
-        if "ok" in out and (flags is None or not (flags["raw"] or flags["prim"])):
-            check_typed_tree(ctx, slim, out["ok"], table)
-        if kind == "option-mask":
-            # the layering order holds for every variant of the query (raw / without the default scopes /
-            # primitive / without the built-in defaults): the values are already of the declared type
-            exp = case["expect"]
-            if "ok" not in out:
-                ctx.fail("resolution-of-well-formed-layers-fails", slim, out)
-            else:
-                got = get_route(out["ok"], exp["route"])
-                if exp["expected"][0] == "value":
-                    if got != ("value", to_json(exp["expected"][1])):
-                        ctx.fail("option-not-from-highest-priority-layer", slim,
-                                 {"expected": exp["expected"][1], "got": got})
-                else:
-                    dflt = get_route(to_json(_F().FlowIR.default_component_structure()), exp["route"])
-                    if flags is not None and not flags["inject"]:
-                        dflt = ("absent",)
-                    nulls_visible = any(visible(t, case["platform"]) for t in case["nulls"] if t in case["mask"])
-                    if dflt[0] == "value":
-                        # typed defaults are converted (20 -> 20.0): compare only untouched kinds
-                        if got[0] != "value":
-                            ctx.fail("default-lost", slim, {"got": got})
-                    elif got[0] == "value" and not (got[1] is None and nulls_visible):
-                        ctx.fail("option-appears-from-invisible-layer", slim, {"got": got})
-        elif flags is not None:
-            pass    # the remaining kind-specific expectations are stated for the observed call only
-        elif kind == "variable-mask":
-            exp = case["expect"]["expected"]
-            if exp[0] == "undefined":
-                if out.get("error") != "unknown-variable":
-                    ctx.fail("undefined-variable-not-reported", slim, out)
-            elif "ok" not in out:
-                ctx.fail("resolution-of-well-formed-layers-fails", slim, out)
-            else:
-                v = exp[1]
-                if out["ok"]["variables"].get("v") != v:
-                    ctx.fail("variable-not-from-highest-priority-layer", slim,
-                             {"expected": v, "got": out["ok"]["variables"].get("v")})
-                want = "<%s>" % (v if isinstance(v, str) else repr(v))
-                if out["ok"]["command"]["arguments"] != want:
-                    ctx.fail("substituted-value-not-from-highest-priority-layer", slim,
-                             {"expected": want, "got": out["ok"]["command"]["arguments"]})
-        elif kind == "chain":
-            fault = case["fault"]
-            if fault in ("undefined", "foreign-only", "replica"):
-                if out.get("error") != "unknown-variable":
-                    ctx.fail("undefined-variable-not-reported", slim, out)
-            elif fault in ("none", "replica-prim"):
-                if "ok" not in out:
-                    ctx.fail("acyclic-chain-does-not-resolve", slim, out)
-                else:
-                    variables = out["ok"]["variables"]   # resolved values: compare with an independent substitution
-                    raw_vars = mout and mout.get("vars")
-                    # independent expectation from the *layered, unresolved* variables is computed below from the doc
-                    exp = expected_chain_string(case)
-                    got = locate_top(out["ok"], case["where"])
-                    if exp is not None and got != exp:
-                        ctx.fail("substitution-result-differs-from-specification", slim, {"expected": exp, "got": got})
-            elif fault in ("cycle", "self"):
-                ctx.tag("cyclic-definition->" + out.get("error", "ok"))
-                if "ok" in out:
-                    ctx.fail("cyclic-definition-resolves", slim, out)
-            elif fault in ("incomplete", "invalid"):
-                if "ok" in out:
-                    ctx.fail("malformed-reference-accepted", slim, out)
-        elif kind == "structural" and case["what"] == "foreign-override-ref":
-            if "ok" not in out:
-                ctx.fail("override-of-another-platform-breaks-resolution", slim, out)
+        judge_answer(ctx, slim, out, table, mout)
+        for view, ans, _, err in plan["views"]:
+            if ans is not None:
+                judge_answer(ctx, slim, ans, table, None, view=view)
         # ---- correspondence -------------------------------------------------------------
-        if mout is not None:
-            mres = mout["result"]
-            if mres.get("error") == "unsupported":
-                ctx.tag("model:unsupported")
+        if mout is None:
+            continue
+        mres = mout["result"]
+        if mres.get("error") == "unsupported":
+            ctx.tag("model:unsupported")
+            continue
+        if "error" in out and out["error"].startswith("other:"):
+            ctx.tag("impl:" + out["error"])
+        if flags is not None and not flags["incl"]:
+            # without the default scopes several references are undefined at once; which one is reported
+            # first depends on dictionary order: compare the class of the error only
+            mres, out = coarse_error(mres), coarse_error(out)
+        ctx.compare("get_component_configuration == Tree.resolve" + ("F (keyword variants)" if flags else ""),
+                    slim, mres, out)
+        if not plan["views"]:
+            continue
+        strict = mouts[plan["strict"]]["result"] if plan["strict"] is not None else mout["result"]
+        for view, ans, flat, err in plan["views"]:
+            if view == "instance" and plan["flatten"] is not None:
+                mflat = mouts[plan["flatten"]]["result"]
+                if mflat.get("error") == "unsupported":
+                    ctx.tag("model:flatten-unsupported")
+                else:
+                    ctx.compare(FLATTEN_REL, slim,
+                                {"ok": norm_desc_json(mflat["ok"])} if "ok" in mflat else {"error": "flatten-fails"},
+                                {"ok": flat} if ans is not None else {"error": "flatten-fails"})
+            if ans is None or strict.get("error") == "unsupported":
                 continue
-            if "error" in out and out["error"].startswith("other:"):
-                ctx.tag("impl:" + out["error"])
-            if flags is not None and not flags["incl"]:
-                # without the default scopes several references are undefined at once; which one is reported
-                # first depends on dictionary order: compare the class of the error only
-                mres, out = coarse_error(mres), coarse_error(out)
-            ctx.compare("get_component_configuration == Tree.resolve" + ("F (keyword variants)" if flags else ""),
-                        slim, mres, out)
+            if view_differs_legitimately(slim, strict, ans):
+                ctx.tag("view:legitimate-difference")
+                continue
+            ctx.compare(VIEW_REL, dict(slim, view=view), coarse_error(without_override(strict)),
+                        coarse_error(without_override(ans)))
+
+
+def view_differs_legitimately(case, strict, ans):
+    """the one family on which the un-flattened and the flattened resolution are known to differ: the override
+    block of ANOTHER platform is interpolated by the un-flattened resolution (known finding
+    C04-foreign-override-reference, Witness/C04.lean) and dropped by the flattening"""
+    if case["kind"] == "shadowed":
+        # the fold binds the references of outer-scope variables early (Witness/C04.lean): judged by the oracle
+        return True
+    if strict.get("error") != "unknown-variable" or "ok" not in ans:
+        return False
+    return classify_foreign_override_leak("override-of-another-platform-breaks-resolution", case, strict)
 
 
 RESOLUTION_ERRORS = {"unknown-variable", "invalid-variable", "incomplete-variable", "invalid-type", "recursion"}
@@ -908,6 +1104,7 @@ SEQ_ROUTES = [r for r in OPTION_POOL if r[0] != ("command", "arguments")] + [
     (("extra", "leaf"), lambda t, k: "e" + t),
 ]
 SEQ_PLATFORMS = ["default", "p"]
+TOLERANT_KINDS = ["replica-arg", "replica-typed", "replica-var"]
 
 
 def gen_sequence(rng):
@@ -948,6 +1145,19 @@ def gen_sequence(rng):
         for tag in ("C", "O", "QO"):
             if rng.random() < 0.3:
                 variable_target(doc, None, tag, comp["stage"], ci)["v"] = "v%s-%s" % (tag, comp["name"])
+    # components whose PRIMITIVE and strict resolutions differ: they are not replicated but mention %(replica)s
+    # (primitive: tolerated - the reference stays, a failed type conversion is discarded; strict: an error)
+    tolerant = {}
+    if rng.random() < 0.6:
+        for comp in rng.sample(doc["components"], rng.randint(1, 2)):
+            how = rng.choice(TOLERANT_KINDS)
+            tolerant["%d/%s" % (comp["stage"], comp["name"])] = how
+            if how == "replica-arg":
+                comp["command"]["arguments"] = "<%(v)s> r%(replica)s"
+            elif how == "replica-typed":
+                comp.setdefault("resourceRequest", {})["threadsPerCore"] = "%(replica)s"
+            else:
+                comp["variables"]["rv"] = "x%(replica)s"
     comps = [(c["stage"], c["name"]) for c in doc["components"]]
     ops = []
     if rng.random() < 0.25:
@@ -966,9 +1176,19 @@ def gen_sequence(rng):
             ops.append({"op": "touchVars", "platform": rng.choice(SEQ_PLATFORMS), "stage": rng.choice([None, 0, 1])})
         if rng.random() < 0.25:
             ops.append({"op": "resolveAll"})
+    if tolerant and rng.random() < 0.75:
+        # a primitive look-up of a tolerant component somewhere before the last strict one
+        cid = rng.choice(sorted(tolerant)).split("/", 1)
+        look = rng.choice([{"op": "read", "what": "validate"},
+                           {"op": "queryF", "stage": int(cid[0]), "name": cid[1], "platform": rng.choice(SEQ_PLATFORMS),
+                            "flags": dict(STD_FLAGS, prim=True)}])
+        ops.insert(rng.randrange(len(ops) + 1), look)
     if ops[-1]["op"] != "resolveAll":
         ops.append({"op": "resolveAll"})
-    return {"kind": "sequence", "doc": doc, "user": None, "routes": routes, "ops": ops}
+    r = rng.random()
+    views = ["instance"] + (["replicate"] if r < 0.2 else []) + (["conf"] if 0.1 < r < 0.35 else [])
+    return {"kind": "sequence", "doc": doc, "user": None, "routes": routes, "ops": ops, "tolerant": tolerant,
+            "views": views}
 
 
 def apply_touch(conc, op):
@@ -1032,6 +1252,15 @@ def spec_check_resolution(case, comp, platform, out, builtin, flags=None):
     if flags != STD_FLAGS:
         who["flags"] = flags
     v = expected_variable(doc, comp, platform, "v", own_only=not flags["incl"])
+    tol = (case.get("tolerant") or {}).get("%d/%s" % (comp["stage"], comp["name"]))
+    if tol and not flags["raw"] and not flags["prim"]:
+        # `replica` is defined by no layer: the strict resolution must report it, whatever was asked before
+        if out.get("error") != "unknown-variable":
+            yield "undefined-variable-not-reported", dict(who, tolerance=tol, answer=(
+                out if "ok" not in out else {"command": out["ok"].get("command"),
+                                             "resourceRequest": out["ok"].get("resourceRequest"),
+                                             "variables": out["ok"].get("variables")}))
+        return
     if "ok" not in out:
         if not flags["raw"] and v is None and out.get("error") == "unknown-variable":
             return          # `v` is not defined in the scopes this variant looks at: reported, as it must be
@@ -1060,7 +1289,9 @@ def spec_check_resolution(case, comp, platform, out, builtin, flags=None):
                 yield "option-appears-from-invisible-layer", dict(who, route=route, got=got)
     if out["ok"].get("variables", {}).get("v") != v:
         yield "variable-not-from-highest-priority-layer", dict(who, expected=v, got=out["ok"].get("variables", {}).get("v"))
-    want = "<%(v)s>" if flags["raw"] else "<%s>" % v
+    want = comp["command"]["arguments"]
+    if not flags["raw"]:
+        want = want.replace("%(v)s", str(v))        # a tolerated %(replica)s of a primitive look-up stays
     if out["ok"].get("command", {}).get("arguments") != want:
         yield "substituted-value-not-from-highest-priority-layer", dict(
             who, expected=want, got=out["ok"].get("command", {}).get("arguments"))
@@ -1118,7 +1349,22 @@ def run_sequence(case, tmpdir):
             failures.append(("read-only-operation-changed-the-description",
                              {"operation": op, "index": idx, "difference": first_difference(before, after)}))
             before = after
-    return desc, nstages, queries, failures
+    # what the runtime executes: every component once more through the flattened forms of the description
+    vqueries, flats = [], []
+    for P in SEQ_PLATFORMS:
+        for view in case.get("views") or ["instance"]:
+            ask, fc, err = try_view(conc, P, view)
+            if view == "instance":
+                flats.append((P, getattr(fc, "flattened_document", None)))
+            if ask is None:
+                op_raised.append("view-%s:%s" % (view, err["error"]))
+                continue
+            for cid in sorted(by_id):
+                out = ask(cid)
+                vqueries.append(({"stage": cid[0], "name": cid[1], "platform": P, "flags": STD_FLAGS, "view": view}, out))
+                for slug, detail in spec_check_resolution(case, by_id[cid], P, out, builtin):
+                    failures.append((slug + "-in-flattened-view", dict(detail, view=view, after_operations=list(done))))
+    return desc, nstages, queries, failures, vqueries, flats
 
 
 def sequence_fails(case):
@@ -1150,29 +1396,34 @@ def shrink_sequence(what, case):
 def run_sequences(ctx, cases, tmpdir, table):
     runs, reqs = [], []
     for case in cases:
-        desc, nstages, queries, failures = run_sequence(case, tmpdir)
-        runs.append((queries, failures, len(reqs)))
-        for q, _ in queries:
-            reqs.append({"op": "resolve", "desc": desc, "user": user_json(case.get("user")), "nstages": nstages,
-                         "platform": q["platform"], "stage": q["stage"], "name": q["name"], "prim": q["flags"]["prim"],
-                         "flags": q["flags"], "fuel": FUEL})
+        desc, nstages, queries, failures, vqueries, flats = run_sequence(case, tmpdir)
+        runs.append((queries, failures, vqueries, flats, len(reqs)))
+        common = {"desc": desc, "user": user_json(case.get("user")), "nstages": nstages, "fuel": FUEL}
+        for q, _ in queries + vqueries:
+            reqs.append(dict(common, op="resolve", platform=q["platform"], stage=q["stage"], name=q["name"],
+                             prim=q["flags"]["prim"], flags=q["flags"]))
+        for P, _ in flats:
+            reqs.append(dict(common, op="flatten", platform=P, prim=False, inject=True))
     mouts = ctx.model(reqs) if reqs else []
     for r in op_raised:
         ctx.tag("seq-read-raised:" + r)
     del op_raised[:]
-    for case, (queries, failures, base) in zip(cases, runs):
+    for case, (queries, failures, vqueries, flats, base) in zip(cases, runs):
         ro = [o for o in case["ops"] if o["op"] != "resolveAll"]
         tags = ["kind:sequence"] + ["seq-op:" + (o["op"] if o["op"] != "read" else "read:" + o["what"]) for o in ro]
         tags += [flag_tag(o["flags"]) for o in ro if o["op"] == "queryF"]
         tags += ["seq-answer:" + ("ok" if "ok" in a else a["error"]) for _, a in queries]
+        tags += ["seq-view:%s:%s" % (q["view"], "ok" if "ok" in a else a["error"]) for q, a in vqueries]
+        tags += ["seq-tolerant:" + how for how in (case.get("tolerant") or {}).values()]
         ctx.case(case, nontrivial=len(ro) >= 2, tags=tags)
         for slug, detail in failures:
             ctx.fail(slug, case, detail)
-        for q, out in queries:
+        for q, out in queries + vqueries:
             if q["flags"] == STD_FLAGS:
-                oracle_common(ctx, case, out)
+                sfx = "-in-flattened-view" if "view" in q else ""
+                oracle_common(ctx, case, out, sfx=sfx, view=q.get("view"))
                 if "ok" in out:
-                    check_typed_tree(ctx, case, out["ok"], table)
+                    check_typed_tree(ctx, case, out["ok"], table, sfx=sfx, view=q.get("view"))
         if mouts is None:
             continue
         first = None
@@ -1181,6 +1432,10 @@ def run_sequences(ctx, cases, tmpdir, table):
             if mres.get("error") == "unsupported":
                 ctx.tag("model:unsupported")
                 continue
+            if not q["flags"]["incl"]:
+                # without the default scopes several references are undefined at once; which one is reported
+                # first depends on dictionary order: compare the class of the error only
+                mres, out = coarse_error(mres), coarse_error(out)
             if canon_eq(mres, out):
                 continue
             first = (k, q, mres, out)
@@ -1192,6 +1447,33 @@ def run_sequences(ctx, cases, tmpdir, table):
             k, q, mres, out = first
             ctx.compare(rel, case, {"agree": True, "index": k, "query": q, "answer": mres},
                         {"agree": False, "index": k, "query": q, "answer": out})
+        # the flattened forms: instance() itself, and every resolution through them
+        vbase = base + len(queries)
+        first = None
+        for k, (q, out) in enumerate(vqueries):
+            mres = mouts[vbase + k]["result"]
+            if mres.get("error") == "unsupported":
+                ctx.tag("model:unsupported")
+                continue
+            a, b = coarse_error(without_override(mres)), coarse_error(without_override(out))
+            if not canon_eq(a, b):
+                first = (k, q, a, b)
+                break
+        if first is None:
+            ctx.compare(VIEW_REL, case, {"agree": True}, {"agree": True})
+        else:
+            k, q, a, b = first
+            ctx.compare(VIEW_REL, case, {"agree": True, "index": k, "query": q, "answer": a},
+                        {"agree": False, "index": k, "query": q, "answer": b})
+        fbase = vbase + len(vqueries)
+        for k, (P, flat) in enumerate(flats):
+            mflat = mouts[fbase + k]["result"]
+            if mflat.get("error") == "unsupported":
+                ctx.tag("model:flatten-unsupported")
+                continue
+            ctx.compare(FLATTEN_REL, dict(case, platform=P),
+                        {"ok": norm_desc_json(mflat["ok"])} if "ok" in mflat else {"error": "flatten-fails"},
+                        {"ok": flat} if flat is not None else {"error": "flatten-fails"})
 
 
 def canon_eq(a, b):
@@ -1318,7 +1600,16 @@ def run(ctx):
                 "routes and one variable defined by random subsets of the global AND stage-scoped blueprints / "
                 "variables of three platforms and of every component and override; 2-8 read-only operations on one "
                 "object (queries of every keyword variant, instance, replicate, raw, copy, getters, reference getters) "
-                "with resolve-everything points in between and at the end; non-trivial = >= 2 read-only operations.")
+                "with resolve-everything points in between and at the end; non-trivial = >= 2 read-only operations; "
+                "60% of the sequences hold 1-2 components that are not replicated but mention %(replica)s (arguments / "
+                "typed option / variable: primitive and strict resolutions differ), validate() is a read-only "
+                "operation and 75% of those sequences place a primitive look-up before a strict one. (i) every case "
+                "of (a)-(e) without keyword variant and every sequence (after its last operation, both platforms) is "
+                "also resolved through the flattened forms FlowIRConcrete(instance(P)) [always], "
+                "FlowIRConcrete(replicate(P)) [20%], FlowIRExperimentConfiguration(primitive=False) [18-25%] with the "
+                "same oracles; instance(P) itself is compared with Tree.flatten. (e') 20/200 cases in which a "
+                "global/stage variable refers to a name an inner scope re-defines (early binding of the fold: "
+                "tagged, Witness/C04.lean).")
     ctx.assumptions = [
         "generated strings contain no '[' (array access is not modelled) and no dotted variable names",
         "int()/float() literals are drawn from the documented subset (sign+digits; <=10 integer and <=4 fractional digits)",
@@ -1327,8 +1618,13 @@ def run(ctx):
     ]
     ctx.trusted.append("C04: FlowIRConcrete.__init__/raw() (normalisation of the document) is used to obtain the "
                        "description handed to the model; floats compared by repr")
-    ctx.trusted.append("C04: answers of instance() / replicate() / getters inside sequences are not compared (only "
-                       "their effect on later resolutions and on the description is)")
+    ctx.trusted.append("C04: answers of the getters inside sequences are not compared (only their effect on later "
+                       "resolutions and on the description is); instance() is compared with Tree.flatten in its "
+                       "variables / blueprint / components sections (environments, output, status report, virtual "
+                       "environments, application dependencies, interface are not); replicate() and "
+                       "FlowIRExperimentConfiguration are judged through the resolutions they answer only")
+    ctx.assumptions.append("flattened views are compared for components that are not replicated (no "
+                           "workflowAttributes.replicate) and documents without $import components")
     tmpdir = tempfile.mkdtemp(prefix="c04-")
     try:
         cases = []
@@ -1375,6 +1671,15 @@ def run(ctx):
         # (e) structural
         for _ in range(60 if quick else 600):
             cases.append(gen_structural(rng))
+        # (e') references of outer-scope variables to names an inner scope re-defines
+        for _ in range(20 if quick else 200):
+            cases.append(gen_shadowed(rng))
+        # every case is also asked through the flattened forms of its description (what the runtime executes)
+        for case in cases:
+            r = rng.random()
+            case["views"] = ["instance"] + (["replicate"] if r < 0.2 else []) + (["conf"] if 0.12 < r < 0.3 else [])
+            if '"replicate"' in json.dumps(case["doc"]):
+                case["views"] = ["instance"]        # a replicated component has other names: not this property
         # (g) the same cases asked with the other keyword variants of get_component_configuration
         nonstd = [f for f in ALL_FLAGS if f != STD_FLAGS]
         for case in list(cases):
@@ -1411,7 +1716,30 @@ def classify_foreign_override_leak(what, case, detail):
     return ref not in rest
 
 
-CLASSIFIERS = {"c04_reference_inside_override_of_another_platform": classify_foreign_override_leak}
+def classify_flatten_early_binding(what, case, detail):
+    """the flattened view answers with the OUTER value of a name that an inner scope of the component
+    re-defines, and the name is referenced from a variable of an outer (global / stage) scope"""
+    if what != "flattening-binds-shadowed-reference-early" or case.get("kind") != "shadowed":
+        return False
+    return isinstance(detail, dict) and detail.get("got") == "outerV-g"
+
+
+_EARLY = []
+
+
+def early_binding_registered():
+    """is the finding in known_findings.json (maintained by the coordinator)? until then it is only tagged"""
+    if not _EARLY:
+        from harness.common import load_known
+        try:
+            _EARLY.append(any(e.get("classifier") == "c04_flatten_early_binding" for e in load_known("C04")))
+        except Exception:
+            _EARLY.append(False)
+    return _EARLY[0]
+
+
+CLASSIFIERS = {"c04_reference_inside_override_of_another_platform": classify_foreign_override_leak,
+               "c04_flatten_early_binding": classify_flatten_early_binding}
 
 
 def replay(ctx, doc):
